@@ -430,6 +430,33 @@ func (ex *Exec) applyContractSig(fr *Frame, ins ssa.Instruction, c *Contract, fn
 		}
 	}
 	env.old = old
+	// definitional postcondition  same(result, E)  of a slice-valued function: the result is bound to E's (base, offset,
+	// length) structurally instead of through an equation, so facts about E's backing array apply to it syntactically
+	if sv, isSlice := res.(SliceV); isSlice {
+		for _, en := range c.Ensures {
+			e := en.E
+			if e.K == ECall && len(e.Args) == 3 && e.Args[0].K == EIdent && e.Args[0].Name == "same" && e.Args[1].K == EIdent && (e.Args[1].Name == "result" || e.Args[1].Name == "result0") {
+				func() {
+					defer func() {
+						if r := recover(); r != nil {
+							if _, isU := r.(unsupported); !isU {
+								panic(r)
+							}
+						}
+					}()
+					if x, ok := ex.eval1(e.Args[2], env).(SliceV); ok {
+						sv.Base, sv.Off, sv.Len = x.Base, x.Off, x.Len
+						res = sv
+						env.vars["result"] = res
+						if n := sig.Results().At(0).Name(); n != "" && n != "_" {
+							env.vars[n] = res
+						}
+					}
+				}()
+				break
+			}
+		}
+	}
 	if c.Pure && rt != nil {
 		// the result is a function of the arguments (and the regions it reads)
 		app := ex.pureApp(c, cname, args, sig, env)
